@@ -75,7 +75,7 @@ def parseBool (s : String) : Option Bool :=
 def handle (line : String) : String :=
   match words line with
   | ["cenc", ms] => match parseMsgs ms with
-    | some ms => match encodeContainer ms with
+    | some ms => match encodeContainerG ms with
       | .ok b => toHexFast b
       | .error e => "err " ++ e.tag
     | none => "bad-op"
@@ -83,19 +83,25 @@ def handle (line : String) : String :=
     | some b => showOut (decodeContainerP b) showMsgs
     | none => "bad-op"
   | ["renc", id, body] => match id.toInt?, ofHexFast body with
-    | some id, some body => toHexFast (encodeResult ⟨id, body⟩)
+    | some id, some body => match encodeResultG ⟨id, body⟩ with
+      | some b => toHexFast b
+      | none => "err ops"
     | _, _ => "bad-op"
   | ["rdec", h] => match ofHexFast h with
     | some b => showOut (decodeResultP b) (fun x => s!"{x.reqMsgID} {toHexFast x.result}")
     | none => "bad-op"
   | ["uenc", id, d] => match id.toInt?, ofHexFast d with
-    | some id, some d => toHexFast (encodeUnencrypted ⟨id, d⟩)
+    | some id, some d => match encodeUnencryptedG ⟨id, d⟩ with
+      | some b => toHexFast b
+      | none => "err ops"
     | _, _ => "bad-op"
   | ["udec", h] => match ofHexFast h with
     | some b => showOut (decodeUnencryptedP b) (fun x => s!"{x.messageID} {toHexFast x.data}")
     | none => "bad-op"
   | ["gzenc", c] => match ofHexFast c with
-    | some c => toHexFast (gzipFrame c)
+    | some c => match gzipFrameG c with
+      | some b => toHexFast b
+      | none => "err ops"
     | none => "bad-op"
   | ["gzdec", h, n, cl] => match ofHexFast h, n.toNat?, parseBool cl with
     | some b, some n, some cl =>
@@ -105,7 +111,7 @@ def handle (line : String) : String :=
       | .ok (_, rest) =>
         match gunzLimitedLen n cl with
         | .error e => "err " ++ e.tag
-        | .ok _ => s!"ok {n} {toHexFast rest}"
+        | .ok k => s!"ok {k} {toHexFast rest}"
     | _, _, _ => "bad-op"
   | ["gzlim", n, cl] => match n.toNat?, parseBool cl with
     | some n, some cl => match gunzLimitedLen n cl with
